@@ -219,6 +219,10 @@ async fn renew_certificate(
 			certificate.warn(&e.message);
 		}
 	};
+	if !is_success {
+		// Never retry in a tight loop: a failed attempt is followed by a pause.
+		sleep(Duration::from_secs(crate::DEFAULT_RENEW_FAIL_WAIT_SEC)).await;
+	}
 	(certificate, account_s.clone(), endpoint_s.clone())
 }
 
